@@ -162,7 +162,7 @@ def stepB (id : String) (inp obs : List String) : String :=
     let m := LogBuf.run Flags.fixed custom progs sched
     let mi := match o with | some tr => tr == m | none => false
     let s := match o with | some tr => LogBuf.specOK custom progs tr | none => false
-    verdict id mi s (if hasStale progs then "K20f" else "-") ("T " ++ toString m.length ++ String.join (m.map encEv))
+    verdict id mi s "-" ("T " ++ toString m.length ++ String.join (m.map encEv))
   | _, _ => s!"{id} bad-case"
 
 /-! stress cases: `<id> Z <G> <logged…> => R <G> (<n> (<start> <len>)…)…` -/
